@@ -125,7 +125,7 @@ fn share_byte(a: &(usize, usize), b: &(usize, usize)) -> bool {
 
 // ---- extract_compact_segment ------------------------------------------------------------------------
 macro_rules! extract_compact {
-    ($name:ident, $s:expr, $uw:literal) => {
+    ($name:ident, $s:expr, $maxlen:expr, $uw:literal) => {
         file_harness!($name, $uw, {
             const S: usize = $s;
             let content: [u8; CAP] = kani::any();
@@ -134,7 +134,7 @@ macro_rules! extract_compact {
             let inp: [(usize, usize); S] = kani::any();
             let q: usize = kani::any(); // "for all bytes"
             let si: usize = kani::any(); // "for all spans"
-            kani::assume(len0 <= CAP);
+            kani::assume(len0 <= $maxlen);
             let mut k = 0;
             while k < S {
                 // spans lie inside the file
@@ -211,9 +211,9 @@ macro_rules! extract_compact {
                     }
                 }
             }
-            crate::witness!(1, r.is_ok() && clean && (S < 2 || inp[0].0 > inp[S - 1].0) && inp[S - 1].0 > 0 && inp[0].1 > 2, "unsorted input, first span after offset 0, span larger than the buffer");
-            crate::witness!(2, r.is_ok() && clean && total > 0 && total < len0 && short, "gaps removed with short transfers");
-            crate::witness!(3, S < 2 || (r.is_err() && any_shared), "overlap refused");
+            kani::cover!(r.is_ok() && clean && (S < 2 || inp[0].0 > inp[S - 1].0) && inp[S - 1].0 > 0 && inp[0].1 > 2, "unsorted input, first span after offset 0, span larger than the buffer");
+            kani::cover!(r.is_ok() && clean && total > 0 && total < len0 && short, "gaps removed with short transfers");
+            kani::cover!(S < 2 || (r.is_err() && any_shared), "overlap refused");
             std::mem::forget(r);
             std::mem::forget(file);
             std::mem::forget(mover);
@@ -222,10 +222,105 @@ macro_rules! extract_compact {
 }
 
 // @family prop=C18 tier=quick timeout=900 mem=16 replay=none role=extract-compact
-// @bounds file of 0..=8 bytes with symbolic content and length; S spans (s<S> in the name) with symbolic offset/length inside the file, any input order (adjacent, gapped, zero-length, first span after offset 0, overlapping); I/O buffer 2 bytes (scale model) so spans of 3..8 bytes are copied in several chunks; short transfers (1 byte per read/write call) on or off symbolically; observed byte / span index symbolic
+// @bounds file of 0..=L bytes (l<L> in the name) with symbolic content and length; S spans (s<S> in the name) with symbolic offset/length inside the file, any input order (adjacent, gapped, zero-length, first span after offset 0, overlapping); I/O buffer 2 bytes (scale model) so spans of 3..L bytes are copied in several chunks; short transfers (1 byte per read/write call) on or off symbolically; observed byte / span index symbolic
 // @encodes cascette_client_storage::storage::compaction::extract_compact_segment, cascette_client_storage::storage::compaction::validate_spans, cascette_client_storage::storage::compaction::CompactionFileMover::compact_in_place, cascette_client_storage::storage::compaction::CompactionFileMover::new
 // @assumes in-memory file model behind stubs of <File as Read>::read, <File as Write>::write, <File as Seek>::seek, File::set_len, File::metadata, Metadata::len (no I/O faults; short transfers modelled); File fabricated from raw fd 3 and forgotten; hook: MIN_BUFFER_SIZE = 2 under cfg(kani) (code assumed uniform in the buffer size); std::fmt::format -> empty String; tracing neutralised; spans lie inside the file; verdict unspecified where a zero-length span sits at the offset of / inside a non-empty one
 // @catches span copied to the wrong place (write cursor not advanced, advanced by the wrong amount, gap test wrong), chunk loop losing or duplicating bytes (remaining/position bookkeeping, chunk larger than buffer), truncation to the wrong length or skipped, wrong bytes_saved, overlap not refused or file modified before the refusal, sort missing so that an earlier span overwrites a later one
-extract_compact!(c18_extract_compact_s1, 1, 6);
-extract_compact!(c18_extract_compact_s2, 2, 6);
+extract_compact!(c18_extract_compact_s1_l8, 1, 8, 6);
+extract_compact!(c18_extract_compact_s2_l5, 2, 5, 5);
 // @end
+// @family prop=C18 tier=thorough timeout=3300 mem=24 replay=none role=extract-compact
+// @bounds as the quick extract-compact family with larger files / more spans: s2_l8 = 2 spans in a file of 0..=8 bytes, s3_l6 = 3 spans in a file of 0..=6 bytes
+// @encodes cascette_client_storage::storage::compaction::extract_compact_segment, cascette_client_storage::storage::compaction::validate_spans, cascette_client_storage::storage::compaction::CompactionFileMover::compact_in_place
+// @assumes as the quick extract-compact family
+// @catches as the quick family, plus errors that need a third span (second gap) or a 4-chunk copy next to another span
+extract_compact!(c18_extract_compact_s2_l8, 2, 8, 6);
+extract_compact!(c18_extract_compact_s3_l6, 3, 6, 5);
+// @end
+
+// ---- CompactionFileMover::compact_in_place / move_data on their own ---------------------------------
+// @harness prop=C18 tier=quick timeout=900 mem=16 replay=none role=compact-in-place
+// @bounds one file of 0..=8 bytes, symbolic content; src_offset, dest_offset, length symbolic with dest_offset <= src_offset (the direction extract-compact uses) and the source range inside the file; 2-byte buffer (1..4 chunks); short transfers symbolic; observed byte symbolic
+// @encodes cascette_client_storage::storage::compaction::CompactionFileMover::compact_in_place
+// @assumes file model and hook as in extract-compact
+// @catches chunked forward copy reading bytes it has already overwritten, off-by-one in chunk/remaining/position bookkeeping, bytes outside the destination range modified, bytes_moved wrong
+file_harness!(c18_compact_in_place, 6, {
+    let content: [u8; CAP] = kani::any();
+    let len0: usize = kani::any();
+    let short: bool = kani::any();
+    let (src, dst, n): (usize, usize, usize) = kani::any();
+    let q: usize = kani::any();
+    kani::assume(len0 <= CAP && src <= len0 && n <= len0 - src && dst <= src);
+    unsafe {
+        DISK[0] = content;
+        LEN[0] = len0;
+        POS[0] = 0;
+        SHORT = short;
+    }
+    let mut mover = CompactionFileMover::new(0);
+    let mut file = fabricate(3);
+    let r = mover.compact_in_place(&mut file, src as u64, dst as u64, n as u64);
+    assert!(r.is_ok(), "in-place copy inside the file failed");
+    assert!(unsafe { LEN[0] } == len0, "in-place copy changed the file length");
+    if q < CAP {
+        let now = unsafe { DISK[0][q] };
+        if q >= dst && q - dst < n {
+            assert!(now == content[src + (q - dst)], "destination byte is not the original source byte");
+        } else {
+            assert!(now == content[q], "byte outside the destination range was modified");
+        }
+    }
+    assert!(mover.bytes_moved() == if src == dst { 0 } else { n as u64 }, "bytes_moved does not match the copied length");
+    kani::cover!(n > 4 && dst + 1 == src && short, "overlapping ranges one byte apart, three chunks, short transfers");
+    kani::cover!(n == 3 && dst + n < src, "disjoint ranges, chunk of 2 then 1");
+    std::mem::forget(r);
+    std::mem::forget(file);
+    std::mem::forget(mover);
+});
+
+// @harness prop=C18 tier=quick timeout=900 mem=16 replay=none role=move-data
+// @bounds two files of 0..=8 bytes, symbolic content and lengths; src_offset, dest_offset, length symbolic with the source range inside the source file and the destination range inside the modelled capacity (may extend the destination file); 2-byte buffer; short transfers symbolic; observed byte symbolic
+// @encodes cascette_client_storage::storage::compaction::CompactionFileMover::move_data
+// @assumes file model (two inodes: fd 3 = source, fd 4 = destination) and hook as in extract-compact
+// @catches source/destination offsets swapped or ignored, chunk bookkeeping off by one, bytes outside the destination range modified, source file modified, destination length wrong, bytes_moved wrong
+file_harness!(c18_move_data, 6, {
+    let c0: [u8; CAP] = kani::any();
+    let c1: [u8; CAP] = kani::any();
+    let (l0, l1): (usize, usize) = kani::any();
+    let short: bool = kani::any();
+    let (so, d_o, n): (usize, usize, usize) = kani::any();
+    let q: usize = kani::any();
+    kani::assume(l0 <= CAP && l1 <= CAP && so <= l0 && n <= l0 - so && d_o <= l1 && n <= CAP - d_o);
+    unsafe {
+        DISK[0] = c0;
+        DISK[1] = c1;
+        LEN[0] = l0;
+        LEN[1] = l1;
+        POS = [0, 0];
+        SHORT = short;
+    }
+    let mut mover = CompactionFileMover::new(0);
+    let mut sf = fabricate(3);
+    let mut df = fabricate(4);
+    let r = mover.move_data(&mut sf, so as u64, &mut df, d_o as u64, n as u64);
+    assert!(r.is_ok(), "move inside the files failed");
+    assert!(unsafe { LEN[0] } == l0, "source file length changed");
+    let want_len = if d_o + n > l1 { d_o + n } else { l1 };
+    assert!(unsafe { LEN[1] } == want_len, "destination file length wrong");
+    if q < CAP {
+        assert!(unsafe { DISK[0][q] } == c0[q], "source file modified");
+        let now = unsafe { DISK[1][q] };
+        if q >= d_o && q - d_o < n {
+            assert!(now == c0[so + (q - d_o)], "destination byte is not the source byte");
+        } else {
+            assert!(now == c1[q], "destination byte outside the moved range was modified");
+        }
+    }
+    assert!(mover.bytes_moved() == n as u64, "bytes_moved does not match the moved length");
+    kani::cover!(n == 5 && so != d_o && short, "three chunks with short transfers");
+    kani::cover!(d_o + n > l1 && n > 0, "move extends the destination file");
+    std::mem::forget(r);
+    std::mem::forget(sf);
+    std::mem::forget(df);
+    std::mem::forget(mover);
+});
